@@ -10,28 +10,31 @@ from lib.core import zlit, zlist
 MANIFEST = {
     'text': 'Coq theorems over an executable model of PrimeFieldElement._sqrt/_is_sqr (p = 2; p = 3 mod 4 by exponentiation '
             'incl. the INV exponent (3p-5)/4; p = 1 mod 4 by Cipolla-Lehmer with the search for b and the X^((p+1)/2) ladder in '
-            'GF(p)[X]/(X^2-bX+a); legendre = the jacobi loop of gmpy.py). Unbounded: Fermat little theorem for every prime '
-            '(proved via the permutation of units, no hypothesis; also for any abstract finite field with enumerated units); '
-            'a nonzero square has a^((p-1)/2) = 1; for EVERY prime p = 3 mod 4 and every nonzero square a: sqrt(a) reduced and '
-            'sqrt(a)^2 = a; for every nonzero a: sqrt(a,INV) * sqrt(a) = 1; sqrt(0) = 0 and sqrt(0,INV) raises '
-            'ZeroDivisionError for every p; p = 2. Bounded-exhaustive by vm_compute (bound in the statement: the 46 primes '
-            'below 200, all elements): is_sqr(a) <-> a is a square, sqrt(a)^2 = a for squares, INV is the inverse of the root '
-            '(this covers the Cipolla branch and the jacobi loop). The model is compared with the real methods on all elements '
-            'of 27 primes <= 257 and on boundary/random elements of 61/64-bit primes of both classes (legendre also for '
-            '127/255-bit primes). Interleaved passes (first with cold caches, then warm) alternate sqrt/is_sqr of different '
-            'fields back to back (two q = 1 mod 4 extension fields in a row, mixed with q = 3 mod 4, binary and prime fields) under '
-            'a per-call time limit, so class-level state such as the cached Tonelli-Shanks non-residue cannot leak unnoticed.',
-    'note': 'Coq model restricted to prime fields. Extension fields (Tonelli-Shanks; q = 1 and 3 mod 4) and binary fields '
+            'GF(p)[X]/(X^2-bX+a); legendre = the jacobi loop of gmpy.py). Unbounded, no hypotheses: Fermat little theorem '
+            '(permutation of units; also for any abstract finite field); Euler criterion in BOTH directions for every odd prime '
+            '(a^((p-1)/2) = 1 iff a is a square, else = p-1; root bound on X^h-1 against the squares of a half-system; also '
+            'for abstract fields); the Euler test decides squareness for every prime and element; for every prime p = 3 mod 4: '
+            'sqrt(a)^2 = a for every nonzero square and sqrt(a,INV)*sqrt(a) = 1 for every nonzero a; sqrt(0) = 0 and '
+            'sqrt(0,INV) raises ZeroDivisionError; p = 2; the Cipolla ladder as coded leaves X^e of Z[X]/(X^2-bX+a) modulo p '
+            'for every e, p (loop invariant). Conditional (hypotheses explicit in the statements): is_sqr(a) <-> a square for '
+            'every prime, given that gmpy.legendre returns the Legendre symbol; the Cipolla result squares to a for every '
+            'prime given the norm identity X^(p+1) = a and that b^2-4a is a non-residue. Bounded-exhaustive by vm_compute '
+            '(the 46 primes below 200, all elements): the whole of is_sqr/sqrt/INV end to end incl. the jacobi loop and the '
+            'Cipolla branch. The model is compared with the real methods on all elements of 27 primes <= 257 and on '
+            'boundary/random elements of 61/64-bit primes of both classes (legendre also for 127/255-bit primes). Interleaved '
+            'passes (cold, then warm caches) alternate sqrt/is_sqr of different fields back to back (two q = 1 mod 4 extension '
+            'fields in a row, mixed with q = 3 mod 4, binary and prime fields) under a per-call time limit.',
+    'note': 'Coq model restricted to prime fields (the p = 1 mod 4 branch of PrimeFieldElement is Cipolla-Lehmer; Tonelli-Shanks '
+            'exists only in ExtensionFieldElement). Extension fields (Tonelli-Shanks; q = 1 and 3 mod 4) and binary fields '
             '(Frobenius) are covered by the implementation-level oracle only: is_sqr/sqrt/INV against brute-force squares on all '
-            'elements for q <= 4096 and 1500 sampled elements of GF(2^16) (no Coq model of gfpx here). PARTIAL / MISSING: '
-            '(1) the Cipolla-Lehmer branch (p = 1 mod 4) has no unbounded theorem (ladder invariant and the Frobenius/norm '
-            'argument not proved) - only the bounded theorem for p < 200 plus correspondence/oracle up to 255-bit primes; '
-            '(2) that gmpy.jacobi computes the Legendre symbol (quadratic reciprocity) is not proved - is_sqr is verified by '
-            'computation for p < 200 only and tested against Euler\'s criterion above; termination of the jacobi loop and of the '
-            'search for b within the model fuel is not proved (fuel exhaustion would surface as an error code in the '
-            'correspondence; none observed); (3) Euler\'s criterion converse (a^((p-1)/2) = 1 => square) not proved. '
+            'elements for q <= 4096 and 1500 sampled elements of GF(2^16) (no Coq model of gfpx here). MISSING for unconditional '
+            'theorems on every prime: (1) jacobi = Legendre symbol (quadratic reciprocity and the supplements, for the loop of '
+            'gmpy.jacobi) - needed by is_sqr and by the search for b; also termination of that loop and of the search within '
+            'the model fuel; (2) the Frobenius/norm identity X^(p+1) = a in GF(p)[X]/(X^2-bX+a) for a non-residue discriminant '
+            '(binomial theorem with p | C(p,k)). Both are hypotheses of the conditional theorems and are discharged by '
+            'computation only for p < 200 (C21_sqrt_is_sqr_bounded); above that: correspondence/oracle up to 255-bit primes. '
             'powmod = CPython pow is modelled, not verified.',
-    'technique': 'Coq proof (Fermat via permutation of units, exponent arithmetic) + bounded vm_compute over all primes < 200 + exhaustive/random correspondence + brute-force oracle on all field kinds',
+    'technique': 'Coq proof (Fermat via permutation of units, Euler via root bound, ladder loop invariant, exponent arithmetic) + bounded vm_compute over all primes < 200 + exhaustive/random correspondence + brute-force oracle on all field kinds',
 }
 
 ERR = {ZeroDivisionError: -1, ValueError: -2, TypeError: -3}
@@ -143,13 +146,13 @@ def interleaved(ctx, finfields, rng, rounds=None):
 
 def run(ctx):
     from mpyc import finfields, gmpy
-    ok = ctx.build(['MPyC.Sqrt']) and ctx.check_props()
+    ok = ctx.build(['MPyC.Sqrt', 'MPyC.Euler']) and ctx.check_props()
     rng = ctx.rng
     nil = interleaved(ctx, finfields, rng, rounds=ctx.n(400, 4000))      # first use of every field class: caches cold
     ctx.rule = ('case = (field, element a): sqrt(a), sqrt(a, INV=True), is_sqr(a); all elements for primes <= 257 (both '
                 'classes mod 4, plus 2), for every extension/binary field of order <= 2^16; random squares and non-squares '
                 'for 61/64-bit primes; non-trivial = a nonzero')
-    ctx.explanation = ('Coq theorems (Fermat, exponentiation branch incl. INV, bounded-exhaustive p < 200) over the executable prime-field model; '
+    ctx.explanation = ('Coq theorems (Fermat, Euler both directions, exponentiation branch incl. INV, ladder invariant, conditional Cipolla/is_sqr, bounded-exhaustive p < 200) over the executable prime-field model; '
                        'model compared exactly with the real methods; brute-force-squares oracle on every field kind')
 
     def bad(sig, **kw):
